@@ -9,9 +9,12 @@ Core Lean only.  Bytes are `Nat`s; messages and batches are byte lists.
 
 Concurrency: every method body (`Send`, `Close`, the timer callback) runs under the mutex
 `m.l`, and the consumer's channel receive is one atomic operation, so every interleaving of
-goroutines is a sequence of the atomic steps `Op` below; the timer may fire at any point
-(arming / `Cancel` of the timer is not modelled: `fire` is always enabled, a superset of the
-real schedules).
+goroutines is a sequence of the atomic steps `Op` below.  The flush timer is modelled by the
+flag `timerArmed`, updated exactly where the code calls `pendingTimer.SetTimeoutIn` (armed)
+and `pendingTimer.Cancel` (disarmed); the timer is one-shot: the callback step `fire` is
+enabled only while armed and disarms.  Trusted (avalanchego `utils/timer`): an armed timer
+eventually calls the callback, an unarmed one never does.  `Close` calls `Stop` only after
+releasing the mutex, so a due callback may still run once after `Close` (and finds `closed`).
 -/
 namespace HyperModel.Pubsub
 
@@ -80,8 +83,10 @@ structure State where
   pendingSize : Nat
   queue : List Bytes   -- contents of the buffered channel `Queue`, oldest first
   closed : Bool
+  timerArmed : Bool    -- `SetTimeoutIn` called and neither cancelled nor fired since
 
-def init : State := { pending := [], pendingSize := 0, queue := [], closed := false }
+def init : State :=
+  { pending := [], pendingSize := 0, queue := [], closed := false, timerArmed := false }
 
 /-- one `clearPending` call, as observed from outside -/
 structure Flush where
@@ -90,7 +95,7 @@ structure Flush where
   delivered : Bool      -- `Queue <- bm` succeeded (`false`: "dropped pending message")
   deriving DecidableEq
 
-inductive Res | ok | closed | tooLarge | batch (b : Bytes) | empty | eof
+inductive Res | ok | closed | tooLarge | batch (b : Bytes) | empty | eof | notArmed
   deriving DecidableEq
 
 structure Out where
@@ -107,6 +112,10 @@ def clearPending (c : Cfg) (s : State) : State × Flush :=
     ({ s with pendingSize := 0, pending := [] },
      { msgs := s.pending, bytes := bm, delivered := false })
 
+/-- `if len(m.pending) == 1 { m.pendingTimer.SetTimeoutIn(m.timeout) }` -/
+def armIfFirst (s : State) : State :=
+  if s.pending.length = 1 then { s with timerArmed := true } else s
+
 /-- `Send` (repaired) -/
 def send (c : Cfg) (s : State) (msg : Bytes) : State × Out :=
   if s.closed then (s, ⟨.closed, none⟩)
@@ -114,18 +123,24 @@ def send (c : Cfg) (s : State) (msg : Bytes) : State × Out :=
     let l := entrySize msg
     if l > c.maxSize then (s, ⟨.tooLarge, none⟩)
     else if s.pendingSize + l > c.maxSize then
-      let (s1, f) := clearPending c s
-      ({ s1 with pendingSize := s1.pendingSize + l, pending := s1.pending ++ [msg] }, ⟨.ok, some f⟩)
+      -- `m.pendingTimer.Cancel(); m.clearPending()`
+      let (s1, f) := clearPending c { s with timerArmed := false }
+      (armIfFirst { s1 with pendingSize := s1.pendingSize + l, pending := s1.pending ++ [msg] },
+        ⟨.ok, some f⟩)
     else
-      ({ s with pendingSize := s.pendingSize + l, pending := s.pending ++ [msg] }, ⟨.ok, none⟩)
+      (armIfFirst { s with pendingSize := s.pendingSize + l, pending := s.pending ++ [msg] },
+        ⟨.ok, none⟩)
 
-/-- the `pendingTimer` callback -/
+/-- the `pendingTimer` callback; enabled only while the timer is armed, and one-shot -/
 def fire (c : Cfg) (s : State) : State × Out :=
-  if s.closed then (s, ⟨.closed, none⟩)
-  else if s.pending.length = 0 then (s, ⟨.ok, none⟩)
+  if !s.timerArmed then (s, ⟨.notArmed, none⟩)
   else
-    let (s1, f) := clearPending c s
-    (s1, ⟨.ok, some f⟩)
+    let s := { s with timerArmed := false }
+    if s.closed then (s, ⟨.closed, none⟩)
+    else if s.pending.length = 0 then (s, ⟨.ok, none⟩)
+    else
+      let (s1, f) := clearPending c s
+      (s1, ⟨.ok, some f⟩)
 
 /-- `Close` -/
 def close (c : Cfg) (s : State) : State × Out :=
